@@ -393,7 +393,12 @@ def _construct(tname, t, form):
             other = bnp.as_encoded_array(col.tolist(), ACTGEncoding) if len(t) else col
             kw = {nm: getattr(t, nm) for nm in fields}
             kw[repc] = other
-            res1 = _project(type(t)(**kw))[0]
+            try:
+                res1 = _project(type(t)(**kw))[0]
+            except BaseException as e:      # noqa
+                if isinstance(e, (KeyboardInterrupt, SystemExit, MemoryError)):
+                    raise
+                res1 = "__raised__"
             if len(t) >= 2:
                 # the column handed over as a list of single rows taken in turn from two differently encoded columns: refused, or the same rows
                 a_ = bnp.as_encoded_array(col.tolist(), bnp.DNAEncoding)
@@ -404,7 +409,7 @@ def _construct(tname, t, form):
                     if isinstance(e, (KeyboardInterrupt, SystemExit, MemoryError)):
                         raise
                     res2 = None
-                if res2 is not None and res2 != res1:
+                if res2 is not None and res2 != _project(t)[0]:
                     return res2
             return res1
         if form == "bad":
